@@ -227,7 +227,7 @@ Section Proofs.
         * cbn [shape is_drain]. destruct (stk s t) as [|[y p] k] eqn:E; [split; exact I|].
           destruct IC as (o & i & m & ->). cbn [shape is_drain] in T4. destruct T4 as [C _]. split; [exact C|]. left. eauto.
         * constructor; [|exact T5]. unfold frame_ok. split; [discriminate|]. split; [|exact I].
-          intros q0 E. injection E as <-. unfold push_qos. destruct (prio F l <? q); lia.
+          intros q0 E. injection E as <-. unfold push_qos, push_qos_of. destruct (prio F l <? q); lia.
     - destruct (stk s t) as [|f k] eqn:E; [|discriminate]. destruct (target F b) as [p|] eqn:Tb; [discriminate|].
       destruct (0 <? rootq s b) eqn:R; [|discriminate]. injection B as <-. apply Z.ltb_lt in R.
       destruct (L b) as [rb Gb]. pose proof Gb as Gb'. dG Gb'.
@@ -443,7 +443,7 @@ Section Proofs.
       apply (Inv_goto s t l _ _ r (conj L T) E); try reflexivity; [discriminate|].
       split; [discriminate|]. split; [|exact I]. intros q0 Hq. injection Hq as <-.
       pose proof (Bq q eq_refl) as Q. destruct FOK as (_ & _ & P). destruct (P l) as [P1 P2].
-      unfold wakeup_qos. destruct (q =? 0); lia.
+      unfold wakeup_qos, wakeup_qos_of. destruct (q =? 0); lia.
   Qed.
 
   Lemma merged_same r q :
@@ -632,7 +632,7 @@ Section Proofs.
     - (* a tail call into _dispatch_lane_push on the target *)
       assert (Fo' : frame_ok F (p, PA_xchg (WLane l) (push_qos F p q))).
       { destruct T5 as (_ & Bq & _). pose proof (Bq q eq_refl) as Q. split; [discriminate|]. split; [|exact Tg].
-        intros q0 Hq. injection Hq as <-. unfold push_qos. destruct (prio F p <? q); lia. }
+        intros q0 Hq. injection Hq as <-. unfold push_qos, push_qos_of. destruct (prio F p <? q); lia. }
       split.
       + apply lanes_after_stack_change; [exact L|]. intros x K. rewrite E, !dpc_cons_pa by reflexivity. apply dsim_refl.
       + apply threads_after_stack_change; [exact T|]. unfold tinv. sproj. rewrite upd_same, holds_cons.
